@@ -124,12 +124,12 @@ func BigInt(n *big.Int) []byte {
 	return TLV(0x02, b)
 }
 
-func Int(n int64) []byte            { return BigInt(big.NewInt(n)) }
-func Octets(b []byte) []byte        { return TLV(0x04, b) }
-func Null() []byte                  { return []byte{0x05, 0x00} }
-func BitString(b []byte) []byte     { return TLV(0x03, []byte{0}, b) }
+func Int(n int64) []byte              { return BigInt(big.NewInt(n)) }
+func Octets(b []byte) []byte          { return TLV(0x04, b) }
+func Null() []byte                    { return []byte{0x05, 0x00} }
+func BitString(b []byte) []byte       { return TLV(0x03, []byte{0}, b) }
 func PrintableString(s string) []byte { return TLV(0x13, []byte(s)) }
-func UTF8String(s string) []byte    { return TLV(0x0c, []byte(s)) }
+func UTF8String(s string) []byte      { return TLV(0x0c, []byte(s)) }
 
 func Bool(v bool) []byte {
 	if v {
@@ -192,6 +192,9 @@ func NonMinimalLength(der []byte) ([]byte, error) {
 	out = append(out, nl...)
 	return append(out, der[n.Start+n.HdrLen:n.End]...), nil
 }
+
+// OIDString renders the content octets of an OBJECT IDENTIFIER in dotted form.
+func OIDString(content []byte) string { return oidString(content) }
 
 func oidString(content []byte) string {
 	if len(content) == 0 {
